@@ -76,14 +76,40 @@ Qed.
 Lemma es_with_cur s k : (forall g, err_shape (k g)) -> err_shape (with_cur s k).
 Proof. intros H. unfold with_cur. destruct (last_opt (goroutines s)); [apply H|apply es_panic]. Qed.
 
+Ltac body_tac s :=
+  let Hst := fresh "Hst" in
+  destruct (st s) eqn:Hst;
+  try (assert (Hs : state_eqb (st s) looking = false) by (rewrite Hst; reflexivity)).
+
+Ltac es_solve :=
+  repeat first
+    [ apply es_none | apply es_panic | (apply es_err; assumption)
+    | (apply es_with_cur; intros ?)
+    | (apply es_func_step; [reflexivity|])
+    | (apply es_file_step; assumption)
+    | (apply es_created_step; assumption)
+    | (apply es_race_goroutine_step; assumption)
+    | (apply es_race_goroutine_func_step; assumption)
+    | match goal with
+      | |- err_shape (match race_op_header ?s ?m ?f ?t with _ => _ end) =>
+          let H := fresh "Hro" in
+          destruct (race_op_header s m f t) eqn:H;
+          [eapply es_race_op_header; [|exact H]; assumption|]
+      end
+    | match goal with |- err_shape (match ?x with _ => _ end) => destruct x end ].
+
 Lemma scan_err_shape s line : err_shape (scan s line).
 Proof.
-  unfold scan.
+  unfold scan. cbv zeta.
   match goal with |- err_shape (match ?tr with _ => _ end) => destruct tr as [trimmed0|] end;
     [|apply es_none].
-  match goal with |- err_shape (match ?pre with _ => _ end) => destruct pre as [s1 [trimmed|]] end.
-  2:{ (* ErrIndent: the state of s1 must be done; re-derive it *) shelve. }
-  destruct (st s) eqn:Hst.
-  all: try (assert (Hs : state_eqb (st s) looking = false) by (rewrite Hst; reflexivity)).
-  all: shelve.
-Abort.
+  destruct trimmed0 as [|c0 t0]; [|destruct (sprefix s) as [|p0 ps] eqn:Hpre;
+     [|destruct (strip_prefix (p0 :: ps) (c0 :: t0)) as [tt|]]]; cbv iota beta.
+  4:{ apply es_err. reflexivity. }
+  all: body_tac s.
+  all: es_solve.
+Qed.
+
+Theorem scan_error_suffix s line ss' l x :
+  scan s line = Ok (ss', l, Some x) -> l = false /\ state_eqb (st ss') looking = false.
+Proof. apply scan_err_shape. Qed.
